@@ -364,7 +364,16 @@ class RuntimeState(utils.NiceRepr):
 
                 if action == 'set_report_style':
                     # Special handling of report style
-                    self.set_report_style(key.replace('REPORT_', ''))
+                    if directive.inline:
+                        # An inline directive only changes the style for this
+                        # part: overlay every report flag, keep the
+                        # persistent state untouched.
+                        for k in self._global_state.keys():
+                            if k.startswith('REPORT_'):
+                                state[k] = False
+                        state[key] = True
+                    else:
+                        self.set_report_style(key.replace('REPORT_', ''))
                 elif action == 'assign':
                     state[key] = value
                 elif action == 'set.add':
